@@ -30,7 +30,10 @@ def gen_history(r, quick, ids):
             frm = r.choice(["u:%d" % r.randrange(users)] * 4 + ["a:%d" % r.randrange(admins)])
             k = r.random()
             if k < 0.5:
-                to = r.choice(["u:%d" % r.randrange(users), frm, "c:store", "a:%d" % r.randrange(admins), "u:%d" % r.randrange(users)])
+                to = r.choice(["u:%d" % r.randrange(users), frm, "c:store", "a:%d" % r.randrange(admins), "u:%d" % r.randrange(users),
+                               "u:%d" % r.randrange(40, 46), "u:%d" % r.randrange(40, 46)])
+                if r.random() < 0.15:
+                    frm = "u:%d" % r.randrange(40, 46)      # an account that may have been created earlier in this very block
                 lv = funded.get(frm, genesis)
                 amt = r.choice(AMOUNTS + [str(lv), str(lv + 1), str(max(lv - fn, 0)), str(max(lv - fn, 0) + 1), str(lv // 2), str(r.randrange(0, 10**6))])
                 ops.append(X.op_transfer(frm, to, amt))
@@ -81,8 +84,45 @@ def corpus_histories(ids):
         # share is credited after its account was emptied; the loss is the rounding loss only (one tx per block)
         mk(4, 50000, [f("a:1", 788500003)], [[X.op_transfer("a:1", "u:1", "5")], [X.op_transfer("a:1", "u:1", "1")], [X.op_store_set(ids, "a:1", "k1", 1)]]),
         mk(3, 50000, [], [[X.op_transfer("a:2", "u:1", "5")], [X.op_transfer("a:2", "a:0", "1")], [X.op_bad("a:2", 0)]]),
+        # "young" accounts: created by an earlier transaction of the SAME block, then on either side of a transfer that is
+        # undone (the sender covers the amount but not the fee afterwards): receiver keeps nothing of the undone credit,
+        # a young sender gets its debit back
+        mk(4, 1, [f("u:1", 10**9), f("u:2", 50100)], [[X.op_transfer("u:1", "u:50", "100000"), X.op_transfer("u:2", "u:50", "50000"), X.op_transfer("u:1", "u:50", "7")]]),
+        mk(4, 1, [f("u:1", 10**9)], [[X.op_transfer("u:1", "u:51", "30000"), X.op_transfer("u:51", "u:1", "25000"), X.op_transfer("u:51", "u:52", "9000")]]),
+        mk(3, 7, [f("u:1", 10**9), f("u:2", 160000)], [[X.op_transfer("u:1", "u:53", "1"), X.op_transfer("u:2", "u:53", "100000"), X.op_transfer("u:1", "u:54", "200000"),
+                                                     X.op_transfer("u:54", "u:53", "150000"), X.op_transfer("u:53", "u:54", "1")]]),
         mk(7, 1000003, [f("a:0", 20999999999), f("a:6", 13)], [[X.op_transfer("a:0", "a:6", "7")], [X.op_transfer("a:6", "u:1", "0"), X.op_transfer("a:0", "u:1", "0")]]),
     ]
+
+
+BNS_DURATIONS = [0, 1, 100, 2**31, 18446744073, 18446744074, 18500000000, 20000000000, 36893488147, 36893488148, 2**40, 2**62, 2**63, 2**63 + 5,
+                 2**64 - 1700000000 - 90 * 86400 - 1, 2**64 - 1700000000 - 90 * 86400, 2**64 - 1]
+
+
+def bns_histories(r, quick):
+    """name registrations / renewals with ordinary and extreme durations (price below, at and above 2^63 and 2^64), by
+    callers holding little, a lot, and more than 2^64; one call per block and caller (the balance at the start of the
+    call is then the funded balance), gas price 1.  What a successful call takes from the caller is credited to nobody:
+    the books of the block shrink by exactly the price (grants = -price), never grow."""
+    out = []
+    durs = BNS_DURATIONS if not quick else BNS_DURATIONS
+    f = lambda a, v: {"op": "fund", "acct": a, "amt": str(v)}
+    for bi, bal in enumerate([10**13, 2**64 + 10**12, 3 * 10**5, 10**19]):
+        pre, blocks = [], []
+        for di, d in enumerate(durs):
+            caller = "u:%d" % (10 + di)
+            pre.append(f(caller, bal))
+            name = "nm%c%c%s" % (97 + bi, 97 + di, "x" * r.choice([0, 0, 1]))[: r.choice([3, 4, 5, 6])] if r.random() < 0.3 else "name%c%c" % (97 + bi, 97 + di)
+            blocks.append([X.op_bns(caller, "Register", name, d, bal)])
+        # renewals of a name registered for 100 s, by a third party
+        pre += [f("u:40", 10**13), f("u:41", bal), f("u:42", bal)]
+        blocks.append([X.op_bns("u:40", "Register", "renewme", 100, 10**13)])
+        for di, d in enumerate(r.sample(durs, 2) + [20000000000]):
+            caller = "u:%d" % (41 + di)
+            if di < 2:
+                blocks.append([X.op_bns(caller, "Renew", None, d, bal, registered_until=X.BNS_NOW + 100, full="renewme.hub")])
+        out.append(dict(cfg=dict(admins=4, gas=1, audit=False, bal="1000000000"), pre=pre, blocks=blocks))
+    return out
 
 
 def gov_call(frm, contract, method, args, tag, ok=True, accts=()):
@@ -163,6 +203,8 @@ def build_rows(g, out, flagsets, ids):
             break
         xrow, info = run.xcase(ob, ops, flagsets, genesis, price, opaque=True)
         grants = genesis * sum(1 for o, rc in zip(ops, ob["receipts"]) if o["body"][0] == "grant" and rc[0] == 0)
+        # a name registration's price is taken from the caller and credited to nobody (SUCCESS receipts only)
+        grants -= sum(o.get("burn", 0) for o, rc in zip(ops, ob["receipts"]) if rc[0] == 0)
         run.sh.apply_block(ob)
         info.update(block=si, tags=[o["tag"] for o in ops], sum=ob.get("sum"))
         rows.append(("(%s, %s)" % (X.gZ(grants), xrow), info))
@@ -265,6 +307,7 @@ def run(ctx):
             items += [audit_admin_history(ctx.rng, ctx.rng.choice(["approve", "reject"]), gas=ctx.rng.choice([0, 1, 7]), extra_transfers=True) for _ in range(12)]
             items += [audit_admin_history(ctx.rng, ctx.rng.choice(["approve", "reject"]), gas=ctx.rng.choice([1, 3, 7]), extra_transfers=ctx.rng.random() < 0.5,
                                           poor_decider=True) for _ in range(8)]
+        items += bns_histories(ctx.rng, ctx.quick)
         n = 150 if ctx.quick else 2000
         items += [gen_history(ctx.rng, ctx.quick, ids) for _ in range(n)]
         outs, e = X.run_histories(exe, [to_history(g) for g in items])
